@@ -115,6 +115,15 @@ type recStorage struct {
 	nFetch int
 	tamper map[int]string // Fetch occurrence -> corrupt | short | wrong-size
 	hit    []string       // tamper kinds actually served
+	// onReceived: schedule control (family "attach-race") — called once, in the caller's goroutine,
+	// when the next ReceiveBlob is about to return
+	onReceived func()
+}
+
+func (s *recStorage) setOnReceived(f func()) {
+	s.mu.Lock()
+	s.onReceived = f
+	s.mu.Unlock()
 }
 
 func (s *recStorage) Fetch(ctx context.Context, br blob.Ref) (io.ReadCloser, uint32, error) {
@@ -168,6 +177,13 @@ func (s *recStorage) ReceiveBlob(ctx context.Context, br blob.Ref, src io.Reader
 	e := s.rec.begin(s.inc, s.layer, "ReceiveBlob", br.String())
 	sb, err := s.inner.ReceiveBlob(ctx, br, src)
 	s.rec.end(e, int64(sb.Size), err)
+	s.mu.Lock()
+	hook := s.onReceived
+	s.onReceived = nil
+	s.mu.Unlock()
+	if hook != nil {
+		hook()
+	}
 	return sb, err
 }
 
@@ -219,6 +235,16 @@ type recKV struct {
 	rec   *recorder
 	inner sorted.KeyValue
 	layer string // "queue" (default) or "queue2" (twin handler)
+	// onFindClosed: schedule control (family "attach-race") — called once, in the caller's
+	// goroutine, when the iterator of the next Find is closed (the constructor's queue read)
+	hookMu       sync.Mutex
+	onFindClosed func()
+}
+
+func (k *recKV) setOnFindClosed(f func()) {
+	k.hookMu.Lock()
+	k.onFindClosed = f
+	k.hookMu.Unlock()
 }
 
 func (k *recKV) name() string {
@@ -265,6 +291,13 @@ func (it *recIter) Close() error {
 	if it.e != nil {
 		it.k.rec.end(it.e, 0, err)
 		it.e = nil
+		it.k.hookMu.Lock()
+		hook := it.k.onFindClosed
+		it.k.onFindClosed = nil
+		it.k.hookMu.Unlock()
+		if hook != nil {
+			hook()
+		}
 	}
 	return err
 }
@@ -398,7 +431,11 @@ type incarnation struct {
 	freeze   *inject.Plan
 	fault    map[string]*inject.Plan // by layer
 	src, dst *recStorage
-	dstLow   *inject.Storage // lowest inject layer of dst: its StoredEvents = what the durable destination accepted
+	// srcObj: the value handed to the handler as its source and to blobserver.Receive by the
+	// client (the key of the hub registry): src itself, or a padSrc around it (scenario.SrcKey)
+	srcObj blobserver.Storage
+	attach *attachObs // family "attach-race": what the schedule of the constructor race was
+	dstLow *inject.Storage // lowest inject layer of dst: its StoredEvents = what the durable destination accepted
 	queue    *recKV
 	sh       *server.SyncHandler
 	sh2      *server.SyncHandler // twin: a second handler on the same source object (own destination and queue)
@@ -700,8 +737,12 @@ func (w *world) start(spec incSpec) *incarnation {
 	qconf := inject.RegisterKV(name, inc.queue)
 	defer inject.UnregisterKV(name)
 
+	inc.srcObj = inc.src
+	if w.sc.SrcKey == "value-1m" {
+		inc.srcObj = padSrc{recStorage: inc.src}
+	}
 	ld := sto.NewLoader()
-	ld.Set("/src/", inc.src)
+	ld.Set("/src/", inc.srcObj)
 	ld.Set("/dst/", inc.dst)
 	conf := jsonconfig.Obj{
 		"from":  "/src/",
@@ -726,13 +767,90 @@ func (w *world) start(spec incSpec) *incarnation {
 		h   http.Handler
 		err error
 	}
-	bc := make(chan built, 1)
-	go func() {
+	// build constructs one handler in the calling goroutine.  With a rendez-vous (family
+	// "attach-race") the goroutine waits for the other party at the last harness-visible point
+	// before the constructor's hub look-up.
+	build := func(conf jsonconfig.Obj, dst *recStorage, queue *recKV, rv *rendezvous, party int) (b built) {
+		if w.sc.AttachCtor == "new-sync-handler" {
+			if rv != nil {
+				rv.arrive(party)
+			}
+			b.h = server.NewSyncHandler("/src/", conf["to"].(string), inc.srcObj, dst, queue)
+		} else {
+			if rv != nil {
+				queue.setOnFindClosed(func() { rv.arrive(party) })
+			}
+			b.h, b.err = blobserver.CreateHandler("sync", ld, conf)
+		}
+		if rv != nil {
+			rv.done(party)
+		}
+		return b
+	}
+	var twin func(rv *rendezvous) built
+	if w.sc.Twin {
+		// a second sync handler over the very same source object (one hub, two receive hooks)
+		dst2 := &recStorage{layer: "dst2", inc: inc.n, rec: w.rec,
+			inner: inject.Wrap("dst2", inject.Wrap("dst2", w.dst2Mem, plan("dst2")), inc.freeze)}
+		q2 := &recKV{inc: inc.n, rec: w.rec, layer: "queue2",
+			inner: inject.WrapKV("queue2", inject.WrapKV("queue2", w.q2Mem, plan("queue2")), inc.freeze)}
+		kvCounter.Lock()
+		kvCounter.n++
+		name2 := fmt.Sprintf("c19-queue-%d", kvCounter.n)
+		kvCounter.Unlock()
+		q2conf := inject.RegisterKV(name2, q2)
+		defer inject.UnregisterKV(name2)
+		ld.Set("/dst2/", dst2)
+		twin = func(rv *rendezvous) built {
+			return build(jsonconfig.Obj{"from": "/src/", "to": "/dst2/", "queue": map[string]any(q2conf)}, dst2, q2, rv, 1)
+		}
+	}
+	var b, b2 built
+	mainCtor := func(rv *rendezvous) {
 		inc.starter = goroutineID()
-		h, err := blobserver.CreateHandler("sync", ld, conf)
-		bc <- built{h, err}
-	}()
-	b := <-bc
+		b = build(conf, inc.dst, inc.queue, rv, 0)
+	}
+	if w.sc.Attach != "" {
+		// the handler is attached while another goroutine makes the first hub look-up for the source
+		rv := newRendezvous(w.sc.AttachLateParty, time.Duration(w.sc.AttachLateNs))
+		var competitor func()
+		switch w.sc.Attach {
+		case "first-receive":
+			first := hw.RawBlob("c19 attach-race: first blob of the source of " + w.sc.ID)
+			w.bmu.Lock()
+			w.blobs[first.Ref.String()] = first // known (a queue row of it is legitimate), never owed
+			w.bmu.Unlock()
+			competitor = func() {
+				inc.src.setOnReceived(func() { rv.arrive(1) })
+				blobserver.Receive(ctxbg, inc.srcObj, first.Ref, bytes.NewReader(first.Data))
+				rv.done(1)
+			}
+		case "wait-for-blob":
+			competitor = func() {
+				rv.arrive(1)
+				blobserver.WaitForBlob(inc.srcObj, time.Now(), nil) // deadline reached: returns at once
+				rv.done(1)
+			}
+		case "second-handler":
+			competitor = func() { b2 = twin(rv) }
+		default:
+			inc.err, inc.harnessErr = fmt.Errorf("unknown attach competitor %q", w.sc.Attach), true
+			return inc
+		}
+		attachSem <- struct{}{}
+		both(func() { mainCtor(rv) }, competitor)
+		<-attachSem
+		inc.attach = rv.obs(w.sc.AttachCtor + ":" + w.sc.Attach + ":" + w.sc.SrcKey)
+		if os.Getenv("C19_ATTACH_DEBUG") != "" {
+			t := time.Now()
+			blobserver.GetHub(inc.srcObj)
+			fmt.Printf("ATTACHTIME %s lookup=%v left=%d,%d ret=%d,%d\n", w.sc.ID, time.Since(t), rv.left[0].Load(), rv.left[1].Load(), rv.ret[0].Load(), rv.ret[1].Load())
+		}
+	} else {
+		done := make(chan struct{})
+		go func() { mainCtor(nil); close(done) }()
+		<-done
+	}
 	h, err := b.h, b.err
 	if err != nil {
 		inc.err = err
@@ -778,19 +896,10 @@ func (w *world) start(spec incSpec) *incarnation {
 		}
 	}
 	if w.sc.Twin {
-		// a second sync handler over the very same source object (one hub, two receive hooks)
-		dst2 := &recStorage{layer: "dst2", inc: inc.n, rec: w.rec,
-			inner: inject.Wrap("dst2", inject.Wrap("dst2", w.dst2Mem, plan("dst2")), inc.freeze)}
-		q2 := &recKV{inc: inc.n, rec: w.rec, layer: "queue2",
-			inner: inject.WrapKV("queue2", inject.WrapKV("queue2", w.q2Mem, plan("queue2")), inc.freeze)}
-		kvCounter.Lock()
-		kvCounter.n++
-		name2 := fmt.Sprintf("c19-queue-%d", kvCounter.n)
-		kvCounter.Unlock()
-		q2conf := inject.RegisterKV(name2, q2)
-		defer inject.UnregisterKV(name2)
-		ld.Set("/dst2/", dst2)
-		h2, err := blobserver.CreateHandler("sync", ld, jsonconfig.Obj{"from": "/src/", "to": "/dst2/", "queue": map[string]any(q2conf)})
+		if w.sc.Attach != "second-handler" {
+			b2 = twin(nil)
+		}
+		h2, err := b2.h, b2.err
 		if err != nil {
 			inc.err = fmt.Errorf("twin handler: %w", err)
 			return inc
@@ -808,7 +917,7 @@ func (w *world) upload(inc *incarnation, b sto.Blob) error {
 	w.blobs[b.Ref.String()] = b
 	w.bmu.Unlock()
 	e := w.rec.begin(inc.n, "client", "Upload", b.Ref.String())
-	var front blobserver.BlobReceiver = inc.src
+	var front blobserver.BlobReceiver = inc.srcObj
 	if inc.front != nil {
 		front = inc.front
 	}
